@@ -422,6 +422,12 @@ func (s *sim) submit(ci int) bool {
 	s.step++
 	op := &cop{Client: ci, Args: args, Call: s.step}
 	c.ops = append(c.ops, op)
+	// the configuration is one per process; the nodes of the simulator share it.  While a node's
+	// connection handler turns a command into a proposal (the only node-side code running now) the
+	// node id it sees is that node's, as in a real deployment.
+	if h.Cfg != nil {
+		h.Cfg.NodeID = s.nodes[c.node].id
+	}
 	c.conn.Send(model.EncodeCommand(h.B(args...)))
 	s.awaitProposal(ci, op)
 	return true
